@@ -93,7 +93,8 @@ Definition set_data (k : Z) (d : list Z) (b : block) : block :=
 
 (* ---- malloc / free *)
 Definition can_recycle (h : heap) : bool :=
-  (0 <? h_lastfreed h) && match live h (h_lastfreed h) with None => true | Some _ => false end.
+  (0 <? h_lastfreed h) && (h_lastfreed h <? h_fresh h) &&
+  match live h (h_lastfreed h) with None => true | Some _ => false end.
 
 Definition h_malloc (h : heap) (sz : Z) (o : owner) (recycle : bool) : heap * Z :=
   let rc := recycle && can_recycle h in
